@@ -16,7 +16,7 @@ echo "base=$(git -C /repo rev-parse --short HEAD)"
 demos=()
 while read -r line; do
   # lines like "gateway/mutant_demo_test.go" possibly with "file -> path"
-  p=$(echo "$line" | grep -oE '[a-zA-Z0-9_/.-]+/[a-zA-Z0-9_.-]+_test\.go' | tail -1)
+  p=$(echo "$line" | grep -oE '[a-zA-Z0-9_/.-]+/[a-zA-Z0-9_.-]+_test\.go' | head -1)
   [ -n "$p" ] && demos+=("$p")
 done < "$d/DEMO_PATH.txt"
 i=0
